@@ -58,6 +58,7 @@ const (
 	where
 		key = ? and (etime is null or etime > ?)
 		and rhash.rowid > ? and field glob ?
+	order by rhash.rowid
 	limit ?`
 
 	sqlSet1 = `
